@@ -347,7 +347,7 @@ func (f *Font) GetOTLigatureCarets(direction Direction, glyph GID) []Position {
 	}
 
 	index, ok := list.Coverage.Index(gID(glyph))
-	if !ok {
+	if !ok || index >= len(list.LigGlyphs) { // the coverage index is not sanitized (a format 2 coverage may return any index)
 		return nil
 	}
 
